@@ -28,7 +28,7 @@ EXPECTED_THEOREMS = {
     "C07": ["queue_exactly_once", "log_values_are_taken", "no_lost_wakeup", "quiescent_blocked_implies_empty", "look_enabled", "whole_queue_reachable", "whole_pushed_are_the_connections_requests", "whole_exactly_once", "whole_pushed_le_sent"],
     "C17": ["token_conservation", "tokens_preserve_requests", "try_recv_never_blocks", "recv_empty_only_by_token", "recv_timeout_bounds", "unblock_released_before_time_passes"],
     "C02": ["head_roundtrip", "method_table", "delivered_is_parsed", "head_roundtrip_any_segmentation"],
-    "C03": ["limited_read_exact", "buffered_read_exact", "buffered_is_next_n", "upgrade_read_exact", "empty_read", "chunked_read_exact", "te_precedence", "declared_length", "no_framing_no_body"],
+    "C03": ["limited_read_exact", "buffered_read_exact", "buffered_is_next_n", "upgrade_read_exact", "empty_read", "chunked_read_exact", "te_precedence", "declared_length", "no_framing_no_body", "readPlanResult_full", "readPlanResult_part", "expectBodied_reads_step", "pipeline_reads_exact", "pipeline_reads_exact_wellBodied", "pipeline_full_reads_get_whole_bodies"],
     "C09": ["next_head_offset_limited", "next_head_offset_buffered", "next_head_offset_empty", "next_head_offset_chunked", "chunked_read_then_drain", "pipeline_with_bodies", "plainBodied_wellBodied", "wellBodied_step", "pipeline_with_any_bodies"],
     "C10": ["request_line_needs_three_fields", "unknown_version_rejected", "version_table", "header_without_colon_rejected", "bad_request_line_outcome", "bad_header_outcome", "non_ascii_outcome", "non_ascii_line", "unsupported_expect_outcome", "expect_classification", "version_too_high_outcome", "too_high_versions", "earlier_responses_first", "pipeline_then_bad_request_line", "pipeline_then_eof", "refused_step", "pipeline_with_refused_requests", "pipeline_with_refused_requests_delivery", "pipeline_with_refused_requests_exact", "refused_requests_do_not_end_the_connection", "refusedRequest_of_framingOf"],
     "C16": ["ws_in_name_rejected", "ws_before_colon_rejected", "leading_ws_rejected", "bad_content_length_rejected", "strict_content_length_iff", "non_digit_rejected", "rejected_line_fails_head", "bad_content_length_outcome", "pipeline_then_ws_in_header", "pipeline_then_obs_fold", "pipeline_then_bad_content_length", "pipeline_then_refused", "smuggling_head_never_interpreted", "bytes_after_smuggling_head_ignored", "smuggling_head_summary"],
